@@ -456,8 +456,8 @@ func c10Run(r *rand.Rand, kind string, hist int) []c10Case {
 		for i, tx := range in.Txs {
 			res := rep.DeliverTx(tx)
 			lg := res.Log
-			if len(lg) > 60 {
-				lg = lg[:60]
+			if len(lg) > 90 {
+				lg = lg[:90]
 			}
 			c.Txs = append(c.Txs, fmt.Sprintf("%s -> %d %s", descr[i], res.Code, lg))
 		}
